@@ -10,4 +10,5 @@ INVARIANTS
   BlocksAreFull
   PendingBounded
   AtMostOneHeader
+  HandlerAccounting
 CHECK_DEADLOCK FALSE
